@@ -494,13 +494,14 @@ theorem getD_true {o : Option Bool} (h : o.getD false = true) : o = some true :=
 
 /-- **C02, `merge_correct`.** For every join mode left / right / inner / outer, every truthful combination of the four
     hints, all well-formed frames (single or compound keys, field subsets, name clashes, every field type incl. indexed
-    strings), every chunk size ≥ 1, and `pandas.merge` assumed to return a permutation of the relational join:
+    strings), every chunk size ≥ 1, and — only where the call takes the unordered path — `pandas.merge` assumed to
+    return a permutation of the relational join:
     `merge` succeeds, and its destination frame is the table of a row list `rows` that is a permutation of
     `relJoin how lk rk` — same multiset of (left columns | empty, right columns | empty) rows, every destination column
     of equal length, clashing names suffixed as documented. On the ordered path (`isOrdered`: both ordered hints, single
     key, mode ≠ outer) `rows` IS `relJoin how lk rk` in its own order, and the row keys are non-decreasing. -/
 theorem merge_correct (pandas : String → List Int → List Int → Except Err Pairs) (i : Input) (cs vf fuel : Nat)
-    (hwf : WellFormed i cs vf) (hth : TruthfulHints i) (hpd : PandasOK pandas i)
+    (hwf : WellFormed i cs vf) (hth : TruthfulHints i) (hpd : isOrdered i = false → PandasOK pandas i)
     (hfuel : i.lk.length + i.rk.length + 2 * (relJoin i.how i.lk i.rk).length + 1 ≤ fuel) :
     ∃ dest rows, merge pandas i cs vf fuel = .ok dest ∧ rows.Perm (relJoin i.how i.lk i.rk) ∧ IsJoinFrame i dest rows ∧
       (isOrdered i = true → rows = relJoin i.how i.lk i.rk ∧
@@ -567,7 +568,7 @@ theorem merge_correct (pandas : String → List Int → List Int → Except Err 
     · exact ordered_path_key_order i.how hhow i.lk i.rk hl hr
   | false =>
     simp only [Bool.false_eq_true, if_false]
-    obtain ⟨pairs, hp1, hp2⟩ := hpd
+    obtain ⟨pairs, hp1, hp2⟩ := hpd hord
     obtain ⟨dest, d1, d2, d3, d4, d5⟩ := unorderedMerge_frame pandas i (leftToMap i) (rightToMap i) pairs (cs * vf) hp1
       (fun x hx => by
         obtain ⟨q, hq, hqx⟩ := List.mem_map.mp hx
@@ -600,19 +601,20 @@ theorem hints_irrelevant (pandas : String → List Int → List Int → Except E
     (hfuel : i.lk.length + i.rk.length + 2 * (relJoin i.how i.lk i.rk).length + 1 ≤ fuel) :
     ∃ dest dest0 rows rows0, merge pandas i cs vf fuel = .ok dest ∧ merge pandas (noHints i) cs vf fuel = .ok dest0 ∧
       rows.Perm rows0 ∧ IsJoinFrame i dest rows ∧ IsJoinFrame i dest0 rows0 := by
-  obtain ⟨dest, rows, a1, a2, a3, _⟩ := merge_correct pandas i cs vf fuel hwf hth hpd hfuel
+  obtain ⟨dest, rows, a1, a2, a3, _⟩ := merge_correct pandas i cs vf fuel hwf hth (fun _ => hpd) hfuel
   have hwf0 : WellFormed (noHints i) cs vf :=
     ⟨hwf.how, hwf.tuples, hwf.tupleLen, hwf.leftOn, hwf.rightOn, hwf.leftKeys, hwf.rightKeys, hwf.leftCols, hwf.rightCols,
       hwf.names, hwf.sizeL, hwf.sizeR, hwf.chunk⟩
   have hth0 : TruthfulHints (noHints i) := ⟨nofun, nofun, nofun, nofun⟩
-  obtain ⟨dest0, rows0, b1, b2, b3, _⟩ := merge_correct pandas (noHints i) cs vf fuel hwf0 hth0 hpd hfuel
+  obtain ⟨dest0, rows0, b1, b2, b3, _⟩ := merge_correct pandas (noHints i) cs vf fuel hwf0 hth0 (fun _ => hpd) hfuel
   exact ⟨dest, dest0, rows, rows0, a1, b1, a2.trans b2.symm, a3, ⟨b3.left, b3.right, b3.len, b3.cols⟩⟩
 
 /-- **C02, `never_raises_on_truthful_hints`.** Under the same hypotheses no error of any kind comes out of `merge`: no
     validation error, no `TypeError` / `ValueError` of the dispatch, no out-of-bounds access or exhausted fuel in a streamed
     generator or column mapper, no "field already exists". -/
 theorem never_raises_on_truthful_hints (pandas : String → List Int → List Int → Except Err Pairs) (i : Input)
-    (cs vf fuel : Nat) (hwf : WellFormed i cs vf) (hth : TruthfulHints i) (hpd : PandasOK pandas i)
+    (cs vf fuel : Nat) (hwf : WellFormed i cs vf) (hth : TruthfulHints i)
+    (hpd : isOrdered i = false → PandasOK pandas i)
     (hfuel : i.lk.length + i.rk.length + 2 * (relJoin i.how i.lk i.rk).length + 1 ≤ fuel) :
     ∀ e, merge pandas i cs vf fuel ≠ .error e := by
   obtain ⟨dest, _, h, _⟩ := merge_correct pandas i cs vf fuel hwf hth hpd hfuel
@@ -722,13 +724,13 @@ example : isOrdered (exInput "left" (some true)) = true ∧ isOrdered (exInput "
 
 /-- the hypotheses of the three theorems are met by this input, on both paths -/
 example := merge_correct exPandas (exInput "left" (some true)) 2 8 64 (exInput_wf _ (Or.inl rfl) _)
-  (exInput_truthful _ _) (exPandas_ok _) (by decide)
+  (exInput_truthful _ _) (fun _ => exPandas_ok _) (by decide)
 example := merge_correct exPandas (exInput "outer" none) 2 8 64 (exInput_wf _ (Or.inr (Or.inr (Or.inr rfl))) _)
-  (exInput_truthful _ _) (exPandas_ok _) (by decide)
+  (exInput_truthful _ _) (fun _ => exPandas_ok _) (by decide)
 example := hints_irrelevant exPandas (exInput "right" (some true)) 2 8 64 (exInput_wf _ (Or.inr (Or.inl rfl)) _)
   (exInput_truthful _ _) (exPandas_ok _) (by decide)
 example := never_raises_on_truthful_hints exPandas (exInput "inner" (some true)) 2 8 64
-  (exInput_wf _ (Or.inr (Or.inr (Or.inl rfl))) _) (exInput_truthful _ _) (exPandas_ok _) (by decide)
+  (exInput_wf _ (Or.inr (Or.inr (Or.inl rfl))) _) (exInput_truthful _ _) (fun _ => exPandas_ok _) (by decide)
 
 /-- what the model computes on it — ordered path, `how='left'`: rows in key order, the right map non-monotone -/
 example : merge exPandas (exInput "left" (some true)) 2 8 64 = .ok
@@ -758,6 +760,37 @@ def exReserved (hint : Option Bool) : Input :=
 
 example : (∃ msg, merge exPandas (exReserved (some true)) 2 8 64 = .error (.valueError msg)) ∧
     (∃ msg, merge exPandas (exReserved none) 2 8 64 = .error (.valueError msg)) := ⟨⟨_, rfl⟩, ⟨_, rfl⟩⟩
+
+/-- the hypotheses of `name_clash_rejected` are met by it: the arguments pass every validator, the names clash -/
+theorem exReserved_args (hint : Option Bool) : ArgsOK (exReserved hint) where
+  how := Or.inl rfl
+  tuples := rfl
+  tupleLen := by intro h; cases h
+  leftOn := by simp [exReserved]
+  rightOn := by simp [exReserved]
+  leftKeys := by
+    intro k hk
+    have : k = "k" := by simpa [exReserved] using hk
+    subst this
+    exact ⟨_, rfl, rfl, rfl⟩
+  rightKeys := by
+    intro k hk
+    have : k = "k" := by simpa [exReserved] using hk
+    subst this
+    exact ⟨_, rfl, rfl, rfl⟩
+  leftCols := by
+    intro k hk
+    have : k = "k" ∨ k = "_left_map" := by simpa [leftToMap, names, exReserved] using hk
+    rcases this with rfl | rfl <;> exact ⟨_, rfl, rfl⟩
+  rightCols := by
+    intro k hk
+    have : k = "k" := by simpa [rightToMap, names, exReserved] using hk
+    subst this
+    exact ⟨_, rfl, rfl⟩
+
+example := name_clash_rejected exPandas (exReserved (some true)) 2 8 64 (exReserved_args _) (by
+  show ¬ (["_left_map", "_right_map", "valid_l", "valid_r", "k_l", "_left_map", "k_r"] : List String).Nodup
+  decide)
 
 /-!
 ## What the full statements assume (nothing is left `_partial`)
